@@ -228,6 +228,28 @@ func (p *Parser) ParseFile(filename string, varPool *VarPool) (*MetaData, []*Bui
 		return nil, nil, fmt.Errorf("find inject directives: %w", err)
 	}
 
+	// The generated code calls predeclared identifiers by their bare names: make and close for the
+	// completion channels of Async providers, error and nil where a provider can fail. A package-level
+	// declaration of one of them would capture those uses.
+	if pkg.Types != nil {
+		needed := map[string]bool{}
+		for _, build := range builds {
+			for _, provider := range build.Providers {
+				if provider.IsAsync {
+					needed["make"], needed["close"], needed["nil"], needed["error"] = true, true, true, true
+				}
+				if provider.IsReturnError {
+					needed["nil"], needed["error"] = true, true
+				}
+			}
+		}
+		for _, name := range []string{"close", "error", "make", "nil"} {
+			if obj := pkg.Types.Scope().Lookup(name); obj != nil && needed[name] {
+				return nil, nil, fmt.Errorf("%s: the package declares %s, which hides the predeclared %s the generated code uses", p.fset.Position(obj.Pos()), name, name)
+			}
+		}
+	}
+
 	return metaData, builds, nil
 }
 
